@@ -56,6 +56,29 @@ func isRelatedReset(i ssa.Instruction) bool {
 	})
 }
 
+// alwaysResetsRelated: every path of fn to a return resets the related data, itself or
+// through a repository function it calls (a bound method value, a helper).
+func alwaysResetsRelated(fn *ssa.Function, depth int) bool {
+	if fn == nil || len(fn.Blocks) == 0 || depth > 3 {
+		return false
+	}
+	miss, _ := (core.PathQuery{Fn: fn, ExitReturnOnly: true, Avoid: func(i ssa.Instruction) bool {
+		if isRelatedReset(i) {
+			return true
+		}
+		ci, ok := i.(ssa.CallInstruction)
+		if !ok {
+			return false
+		}
+		if _, isGo := i.(*ssa.Go); isGo {
+			return false
+		}
+		callee := ci.Common().StaticCallee()
+		return callee != nil && core.InRepo(core.FnPkgPath(callee)) && alwaysResetsRelated(callee, depth+1)
+	}}).Exists()
+	return !miss
+}
+
 func c08_14(c *core.Ctx, p *core.Prog) {
 	n := 0
 	for _, fn := range arrowRecordFuncs(p) {
@@ -158,7 +181,7 @@ func c08_14(c *core.Ctx, p *core.Prog) {
 					bad = fmt.Sprintf("%s: the builder factory passed here is not a function literal", p.Pos(ci.Pos()))
 					return
 				}
-				if miss, _ := (core.PathQuery{Fn: clo, Avoid: isRelatedReset, ExitReturnOnly: true}).Exists(); miss {
+				if !alwaysResetsRelated(clo, 0) {
 					bad = fmt.Sprintf("%s: the builder factory passed here can return without resetting the related data (a reset made once before the loop does not cover the retries)", p.Pos(ci.Pos()))
 				}
 			})
